@@ -255,8 +255,18 @@ def one_case(res, rng, case, seed):
                         process_betdaq_current_order(o, co)
                     else:
                         # through the wrapper of the order stream: lookup by reference over all markets (plus a reference nobody knows)
+                        # a second one FOLLOWS the known order's update in the same batch: a bet typed in on the website (reference 0) or a
+                        # bet of another instance on the account - it belongs to nobody here and must be dropped, not handed to the order
+                        # the previous update of the batch resolved to
+                        foreign = {"status": rng.choice(["Matched", "Settled", "Cancelled", "Unmatched"]), "sequence_number": 11, "price": 3.0,
+                                   "order_id": 8888, "customer_reference": rng.choice([0, 54321])}
                         process_betdaq_current_orders(markets, None, mock.Mock(event=[{"status": "Matched", "sequence_number": 9, "price": 2.0,
-                                                                                 "order_id": 1, "customer_reference": 12345}, co]), None, None)
+                                                                                 "order_id": 1, "customer_reference": 12345}, co, foreign]), None, None)
+                        held = o.current_order
+                        if isinstance(held, dict) and held.get("customer_reference") != int(o.id):
+                            res.violate("update-misattributed", "betdaq order %d (reference %s) holds the order-stream update of reference %r (bet %r): "
+                                        "an update whose reference matches no local order was attributed to it" % (
+                                            o._mid, o.id, held.get("customer_reference"), held.get("order_id")), payload)
                         if o.complete and o in list(market.blotter.live_orders):
                             res.violate("complete-order-in-live-list", "betdaq order %d: complete after the stream update but still in the "
                                         "blotter's live list" % o._mid, payload)
